@@ -804,7 +804,7 @@ func replayCounterexample(p *Program, res *UnitResult, o *Obligation, base strin
 	ov := map[string]any{"Replace": map[string]string{filepath.Join(pkgDir, "zz_govc_replay_test.go"): goPath}}
 	data, _ := json.Marshal(ov)
 	os.WriteFile(ovPath, data, 0o644)
-	cmd := exec.Command("bash", "-c", fmt.Sprintf("ulimit -v 4194304; go test -v -overlay %q -vet=off -timeout 60s -count=1 -run '^%s$' %q 2>&1", ovPath, testName, root.Pkg.Pkg.Path()))
+	cmd := exec.Command("bash", "-c", fmt.Sprintf("ulimit -v 4194304; go test -tags verif -v -overlay %q -vet=off -timeout 60s -count=1 -run '^%s$' %q 2>&1", ovPath, testName, root.Pkg.Pkg.Path()))
 	cmd.Dir = p.Harness
 	cmd.Env = goEnv()
 	outB, _ := cmd.CombinedOutput()
